@@ -164,14 +164,20 @@ def consistent_walks(pg, flat, segnames, limit=60, lenient=False):
 
 # ---------------------------------------------------------------- construction
 
-def edge_line(name, x, y, slen, flip):
-    """E line for the dovetail x -> y (oriented segments); flip = list it as y^-1 -> x^-1."""
+def edge_line(name, x, y, slen, flip, kind="dovetail"):
+    """E line joining x -> y (oriented segments); flip = list it as y^-1 -> x^-1.  The intervals
+    make it a dovetail, a containment or an internal overlap: a walk may use any of them (the
+    specification speaks of edges; gfapy looks at sid1/sid2 only)."""
     if flip:
         x, y = inv(y), inv(x)
     (a, oa), (b, ob) = (x[:-1], x[-1]), (y[:-1], y[-1])
     la, lb = slen[a], slen[b]
     i1 = ("%d" % (la - 2), "%d$" % la) if oa == "+" else ("0", "2")
     i2 = ("0", "2") if ob == "+" else ("%d" % (lb - 2), "%d$" % lb)
+    if kind == "containment":
+        i2 = ("0", "%d$" % lb)
+    elif kind == "internal":
+        i1, i2 = ("1", "3"), ("1", "3")
     return ["E", [name, x, y, i1[0], i1[1], i2[0], i2[1], "2M"], []], (x, y)
 
 
@@ -186,7 +192,7 @@ def build_paths_case(r):
         x = gen.choice(r, segs) + gen.choice(r, "+-")
         y = gen.choice(r, segs) + gen.choice(r, "+-")
         name = "e%d" % i
-        l, sid = edge_line(name, x, y, slen, gen.chance(r, 0.5))
+        l, sid = edge_line(name, x, y, slen, gen.chance(r, 0.5), gen.choice(r, ["dovetail", "dovetail", "dovetail", "containment", "internal"]))
         edges[name] = sid
         lines.append(l)
     pg = PGraph(edges)
@@ -501,6 +507,25 @@ def prop_sets(case):
                 out.update(sub)
         return out
 
+    labels = _eval_set(g, uid, closure, all_edges, recs, ctx)
+    cont = case.get("cont")
+    if cont and cont[0] in recs:
+        # a further line of a group somewhere below the queried set arrives AFTER the first
+        # answer was given: the second answer is that of the enlarged group
+        kind = recs[cont[0]][0]
+        try:
+            g.add_line("%s\t%s\t%s" % (kind, cont[0], cont[1]))
+        except GfapyError as e:
+            raise Violation("continuation-refused", "%s\nfurther line of %s refused: %s: %s" % (ctx, cont[0], type(e).__name__, str(e)[:200]), type(e).__name__)
+        recs[cont[0]] = [kind, [cont[0], recs[cont[0]][1][1] + " " + cont[1]], []]
+        ctx2 = ctx + "\n+ after the first query: %s\t%s\t%s" % (kind, cont[0], cont[1])
+        l2 = _eval_set(g, uid, closure, all_edges, recs, ctx2)
+        labels["continued"] = True
+        labels["nt"] = labels["nt"] or l2["nt"]
+    return labels
+
+
+def _eval_set(g, uid, closure, all_edges, recs, ctx):
     want = closure(uid)
     line = g.line(uid)
     try:
@@ -565,15 +590,28 @@ def st_sets(draw):
         lines.append(["O", ["o%d" % i, " ".join(items)], []])
         groups.append("o%d" % i)
     usets = []
-    for i in range(r.randint(1, 3)):
+    chain = gen.chance(r, 0.5)  # every set contains the previous one: nesting as deep as there are sets
+    for i in range(r.randint(1, 3) if not chain else r.randint(2, 4)):
         pool = segs + enames + groups + usets
-        items = [gen.choice(r, pool) for _ in range(r.randint(1, 4))]
+        items = [gen.choice(r, pool) for _ in range(r.randint(1, 4 if not chain else 2))]
+        if chain and usets and usets[-1] not in items:
+            items.append(usets[-1])
         lines.append(["U", ["u%d" % i, " ".join(items)], []])
         usets.append("u%d" % i)
     order = list(range(len(lines)))
     if gen.chance(r, 0.5):
         r.shuffle(order)
-    return {"lines": [lines[i] for i in order], "set": usets[-1]}
+    cont = None
+    lower = usets[:-1] + groups
+    if lower and gen.chance(r, 0.5):
+        tgt = gen.choice(r, lower)
+        if chain and gen.chance(r, 0.6):
+            tgt = usets[0]  # the innermost set of the chain
+        if tgt in groups:
+            cont = [tgt, gen.choice(r, segs) + gen.choice(r, "+-")]
+        else:
+            cont = [tgt, " ".join(gen.choice(r, segs + enames) for _ in range(r.randint(1, 2)))]
+    return {"lines": [lines[i] for i in order], "set": usets[-1], "cont": cont}
 
 
 def parts(tier):
